@@ -36,7 +36,7 @@ Q = 60000
 
 
 def instances(tier, seed):
-    progs = [{'fam': 'MD'}, {'fam': 'MD', 'dw': True}, {'fam': 'MD', 'bn': True}, {'fam': 'MA'}, {'fam': 'ML', 'bn': False}, {'fam': 'ML', 'bn': True}, {'fam': 'M1D'}]
+    progs = [{'fam': 'MD'}, {'fam': 'MD', 'dw': True}, {'fam': 'MD', 'bn': True}, {'fam': 'MA'}, {'fam': 'ML', 'bn': False}, {'fam': 'ML', 'bn': True}, {'fam': 'M1D'}, {'fam': 'M1A'}]
     out = []
     for s in progs:
         sp = dict(s, wtype='layer', w=[2, 8], a=[4, 8])
@@ -95,7 +95,7 @@ def chain_problem(spec, summ):
     fam = spec['fam']
     chains = {'MD': [('x_input_quantizer', 'c0')] + ([('c0', 'dw'), ('dw', 'fc')] if spec.get('dw') else [('c0', 'fc')]) + ([('fc', 'fc2')] if spec.get('two_fc') else []),
               'MA': [('x_input_quantizer', 'c0'), ('x_input_quantizer', 'c1')], 'ML': [('x_input_quantizer', 'fc0'), ('fc0', 'fc1')],
-              'M1D': [('x_input_quantizer', 'c0'), ('c0', 'c1'), ('c1', 'fc')]}[fam]
+              'M1D': [('x_input_quantizer', 'c0'), ('c0', 'c1'), ('c1', 'fc')], 'M1A': [('x_input_quantizer', 'c0'), ('x_input_quantizer', 'c1'), ('c0', 'fc'), ('c1', 'fc')]}[fam]
     for prod, cons in chains:
         if prod in summ and cons in summ and 'out_precision' in summ[prod] and 'in_precision' in summ[cons]:
             if summ[prod]['out_precision'] != summ[cons]['in_precision']:
